@@ -114,14 +114,15 @@ PROPS["C07"] = dict(
     level_note="Trusted: Coq kernel+VM, rs2v printer + call-graph dump (by name/arity), Rust/Script.v "
                "extraction, RwLock mutual exclusion (std and parking_lot), unsafe swap_any/pointer casts "
                "modelled by their intended effect.",
-    gen=["Entry", "CallGraph", "HotReloading"],
+    gen=["Entry", "CallGraph", "HotReloading", "Private"],
     model_files=["Rust/Ast.v", "Rust/Syntax.v", "Rust/Script.v", "Ref/RwCell.v"],
     model_targets=["Rust/Script.vo"],
     proof_files=["Proofs/RwProof.v", "Proofs/RwStep.v", "Proofs/RwPin.v", "Proofs/AnsInv.v", "Proofs/AnsR.v",
-                 "Proofs/AnsC.v", "Tie/Entry.v", "Tie/CallGraph.v", "Props/C07.v"],
+                 "Proofs/AnsC.v", "Tie/Entry.v", "Tie/CallGraph.v", "Props/C07.v", "Tie/Answers.v"],
     proof_targets=["Props/C07.vo"],
     props_module="Props.C07",
-    theorems=["C07_code_follows_the_lock_discipline", "C07_every_reader_takes_the_lock", "C07_no_torn_read", "C07_guard_pins",
+    theorems=["C07_code_follows_the_lock_discipline", "C07_every_reader_takes_the_lock", "C07_lock_wrapper_is_faithful",
+              "C07_code_hot_reload_waits_for_its_own_answer", "C07_no_torn_read", "C07_guard_pins",
               "C07_change_needs_write_lock", "C07_only_passes_write",
               "C07_update_happens_inside_the_callers_hot_reload",
               "C07_hot_reload_returns_after_its_update", "C07_zero_duration_lock_is_rejected_and_tears"],
@@ -372,7 +373,7 @@ sys_prop(
     "the empty list goes to default_value with NoDefaultValue.  Error ids/wrapping, FileContent variants, "
     "retry after repair are checked by the correspondence (traces of reads and loader calls compared verbatim).",
     ["Proofs/Load.v", "Tie/Error.v", "Tie/LoadFromSource.v", "Props/C03.v"], ["Props/C03.vo"],
-    ["C03_code_or_is_model_or", "C03_or_prefers_the_higher_class",
+    ["C03_code_or_is_model_or", "C03_code_error_conversions_keep_the_class", "C03_or_prefers_the_higher_class",
      "C03_code_load_from_source_is_model_up_to_3_extensions", "C03_first_readable_decodable_extension_wins",
      "C03_all_fail_highest_class_error_goes_to_default", "C03_empty_extension_list_goes_to_default"],
     ["Error", "Asset", "Key"], [], mode="cold")
@@ -437,13 +438,13 @@ sys_prop(
     "a drop guard; one reload is all-or-nothing; DepsGraph::reload treats an unwinding reload as failed.  "
     "`later calls recover` and `hot_reload still returns` are exercised by the engines.",
     ["Proofs/SysGrows.v", "Proofs/SysFrame.v", "Proofs/SysRecs.v", "Proofs/SysStatic.v", "Proofs/SysMap.v",
-     "Proofs/SysReload.v", "Tie/Records.v", "Tie/Erasure.v", "Tie/Static.v", "Props/C09.v"],
+     "Proofs/SysReload.v", "Tie/Records.v", "Tie/Erasure.v", "Tie/Static.v", "Tie/Dirs.v", "Props/C09.v"],
     ["Props/C09.vo"],
     ["C09_cached_values_untouched", "C09_recording_restored_at_top_level", "C09_recording_stack_restored",
      "C09_code_restores_recording_on_every_exit", "C09_reload_is_all_or_nothing",
      "C09_code_treats_a_panicking_reload_as_failed", "C09_code_failed_reload_keeps_the_old_dependencies",
-     "C09_loads_leave_reloader_state"],
-    ["Records", "Deps", "Anycache"], ["hot_reload-hangs-after-loader-panic"], mode="all",
+     "C09_loads_leave_reloader_state", "C09_code_directory_faults_propagate"],
+    ["Records", "Deps", "Anycache", "Dirs", "Flags"], ["hot_reload-hangs-after-loader-panic"], mode="all",
     extra_engines=[("answers", ["--parts", "panic"])])
 
 sys_prop(
@@ -513,6 +514,7 @@ PROPS["C12"] = dict(
     proof_targets=["Props/C12.vo"],
     props_module="Props.C12",
     theorems=["C12_code_id_of_path_is_model_on_the_sweep", "C12_code_event_table_is_model",
+              "C12_code_every_event_reaches_the_table",
               "C12_id_of_path_inverts_path_of", "C12_root_is_the_empty_directory_entry",
               "C12_ids_and_paths_round_trip", "C12_outside_every_root_is_no_event",
               "C12_events_name_the_entry", "C12_events_name_the_parent"],
